@@ -138,9 +138,12 @@ fn run_scenario(sc: &Value, t: &mut Tracer) {
 				}
 				refill = Some(stats.clone());
 			} else if finite {
-				// a finite stream is decoded completely, after which the decoder thread ends
+				// a finite stream is decoded completely, after which the decoder thread ends or idles
 				let t0 = std::time::Instant::now();
-				while !stats.dropped.load(std::sync::atomic::Ordering::SeqCst) && t0.elapsed() < Duration::from_secs(5) {
+				while !stats.dropped.load(std::sync::atomic::Ordering::SeqCst)
+					&& DEC_WAITS.load(std::sync::atomic::Ordering::SeqCst) < 1
+					&& t0.elapsed() < Duration::from_secs(5)
+				{
 					std::thread::sleep(Duration::from_micros(200));
 				}
 			} else {
